@@ -269,12 +269,44 @@ Proof.
 Qed.
 Print Assumptions C14_history_jobs_invariant.
 
+(* A head event (HandleHeadEvent's housekeeping) never touches the jobs, and removes the
+   information of an epoch exactly when it is a head of the current slot whose epoch is two or more
+   epochs after it -- in plain arithmetic: during epochs 0 and 1 nothing goes.  ([ep] < 2^64-1:
+   nobody subscribes for FAR_FUTURE_EPOCH, the one value where the code's uint64 sum wraps.) *)
+Theorem C14_head_event_drops_only_old_epochs :
+  forall pr st hslot cur ep, ep + 1 < two64 ->
+    let st' := fst (step pr st (OHead hslot cur)) in
+    st_jobs st' = st_jobs st /\
+    get_info ep (st_infos st') =
+      if (hslot =? cur) && (ep + 1 <? hslot / spe pr) then None else get_info ep (st_infos st).
+Proof. exact step_head. Qed.
+Print Assumptions C14_head_event_drops_only_old_epochs.
+
+Theorem C14_head_event_in_epochs_0_and_1_drops_nothing :
+  forall pr st hslot cur ep, ep + 1 < two64 -> hslot / spe pr <= 1 ->
+    get_info ep (st_infos (fst (step pr st (OHead hslot cur)))) = get_info ep (st_infos st).
+Proof. exact step_head_early. Qed.
+Print Assumptions C14_head_event_in_epochs_0_and_1_drops_nothing.
+
+(* The same housekeeping written with a subtraction (`subscriptionEpoch < epoch - 1`) is the same
+   test from epoch 1 on, and refuted in epoch 0: every epoch's information would go. *)
+Theorem C14_head_prune_by_subtraction_refuted :
+  (forall ep, ep + 1 < two64 -> stale64_by_subtraction ep 0 = true /\ stale64 ep 0 = false) /\
+  (forall ep hepoch, 1 <= hepoch -> ep + 1 < two64 -> stale64_by_subtraction ep hepoch = stale64 ep hepoch).
+Proof.
+  split; [|exact by_subtraction_later].
+  intros ep B. split; [apply by_subtraction_epoch0; exact B|]. unfold stale64. apply N.ltb_ge, N.le_0_l.
+Qed.
+Print Assumptions C14_head_prune_by_subtraction_refuted.
+
 (* The property over a whole history: whatever happened before, after a subscribe of the epoch and
-   any operations that leave the epoch's information alone, attesting a slot of the epoch leaves
-   exactly one aggregation job for every attested committee with a selected validator of ours. *)
+   any operations that leave the epoch's information alone -- subscribes of other epochs, failed
+   subscribes, attests, and head events of the epoch itself, of the next epoch, or not of the
+   current slot ([keeps]) --, attesting a slot of the epoch leaves exactly one aggregation job
+   for every attested committee with a selected validator of ours. *)
 Theorem C14_history_every_selected_committee_gets_job :
   forall pr ops1 ep cur1 sign_fail duties ops2 dslot cur no_acct atts a d,
-    Forall (keeps ep) ops2 -> dslot / spe pr = ep ->
+    ep + 1 < two64 -> Forall (keeps pr ep) ops2 -> dslot / spe pr = ep ->
     consistent_duties duties -> digests_ok duties ->
     In a atts -> cur <= a_slot a ->
     duty_for (sign_ok_of sign_fail) duties (a_slot a) (a_comm a) d -> selected (agg_target pr) d = true ->
@@ -329,21 +361,21 @@ Theorem C14_model_satisfies_P_sub :
 Proof. exact model_satisfies_P_sub. Qed.
 Print Assumptions C14_model_satisfies_P_sub.
 
-(* P_att true on an observed attest step ([prev]: the jobs observed before it, [kn]: the latest
-   subscribe inputs per epoch) implies: nothing scheduled is lost; names are distinct; the real
+(* P_att true on an observed attest step ([prev]: the jobs observed before it, [kn_all]: the latest
+   subscribe inputs per epoch, [kn]: those that no head event since was entitled to drop) implies: nothing scheduled is lost; names are distinct; the real
    Aggregate requested and submitted what the job carries; every new job is for an attested
    committee, not in the past, at StartOfSlot + delay, for one of our validators with that duty
    and its own slot signature (a selected one, when the answer was self-consistent); and every
    attested committee with a selected validator has a job. *)
 Theorem C14_P_att_sound :
-  forall pr kn prev dslot cur no_acct atts jobs,
-    P_att pr kn prev dslot cur false no_acct atts jobs = true ->
+  forall pr kn_all kn prev dslot cur no_acct atts jobs,
+    P_att pr kn_all kn prev dslot cur false no_acct atts jobs = true ->
     let js := map fst jobs in
     (forall j, In j prev -> In j js) /\
     NoDup (map jkey js) /\
     (forall j o, In (j, o) jobs -> o = Some (j_dslot j, j_root j, j_val j, j_sig j)) /\
     (forall j, In j js -> ~ In (jkey j) (map jkey prev) ->
-       exists sf ds, known_get (dslot / spe pr) kn = Some (sf, ds) /\
+       exists sf ds, known_get (dslot / spe pr) kn_all = Some (sf, ds) /\
          (exists a, In a atts /\ akey a = jkey j /\ a_root a = j_root j) /\
          cur <= j_slot j /\ j_time j = j_slot j * slot_ms pr + delay_ms pr /\ j_dslot j = j_slot j /\
          acct_ok_of no_acct (j_val j) = true /\
@@ -358,9 +390,20 @@ Theorem C14_P_att_sound :
 Proof. exact P_att_sound. Qed.
 Print Assumptions C14_P_att_sound.
 
+(* P_head true on what was observed after a head event: the information of every epoch subscribed
+   so far ([kn]) that the head may not drop -- the head's epoch, the one before, later ones; all of
+   them when the head is not of the current slot -- is still held. *)
+Theorem C14_P_head_sound :
+  forall pr kn hslot cur infos,
+    P_head pr kn hslot cur infos = true ->
+    forall ep v, In (ep, v) kn -> (hslot <> cur \/ hslot / spe pr <= ep + 1) -> In ep (map fst infos).
+Proof. exact P_head_sound. Qed.
+Print Assumptions C14_P_head_sound.
+
 (* The whole predicate over a whole history: whenever the implementation's observed outputs agree
    with the model's (the correspondence test [agree] of the check), P_b holds on them -- for every
-   history of subscribe / attest operations with proper digests.  So a VIOLATION can only arise
+   history of subscribe / attest / head-event operations with proper digests and subscribed
+   epochs below 2^64-1.  So a VIOLATION can only arise
    where the implementation departs from the model, and the model satisfies the property by the
    theorems above: the predicate itself cannot raise a false alarm. *)
 Theorem C14_P_b_holds_wherever_model_agrees :
@@ -461,3 +504,15 @@ Example C14_example_history :
   attest_run_pinned ex_pr (subscription_info 16 (fun _ => true) ex_duties2) 72 (fun _ => true) [] ex_atts =
   [ mkJob 72 0 872000 72 9000 40 2001 ].
 Proof. split; vm_compute; reflexivity. Qed.
+
+(* head events: subscribe epochs 0 and 1 during epoch 0, a head of slot 3 at slot 3 (epoch 0) and
+   one of slot 9 (epoch 1) drop nothing; the head of slot 16 (epoch 2) drops epoch 0 only; a head
+   of slot 40 while the current slot is 16 is ignored; the by-subtraction variant would have
+   dropped both in epoch 0 *)
+Example C14_example_heads :
+  let infos ops := map fst (st_infos (fst (run ex_pr init ops))) in
+  let subs := [ OSub 0 2 false false [] []; OSub 1 2 false false [] [] ] in
+  infos (subs ++ [OHead 3 3]) = [0; 1] /\ infos (subs ++ [OHead 9 9]) = [0; 1] /\
+  infos (subs ++ [OHead 16 16]) = [1] /\ infos (subs ++ [OHead 40 16]) = [0; 1] /\
+  filter (fun ep => negb (stale64_by_subtraction ep 0)) [0; 1] = [].
+Proof. vm_compute. repeat split; reflexivity. Qed.
